@@ -40,10 +40,10 @@ CHECKS = {
             "Theorems: the seven stack clauses of L0 (push_spec, push_literal_spec, peek_spec, pop_spec, drop_spec, peek_all_spec, pop_all_spec, peek_slice_spec), stack_ops_never_raise and failed_op_is_identity for the interpreter model, undo on backtracking as the refinement theorem L1 ⊑ L0 (every abandoned alternative / optional / repetition item / predicate restores the stack exactly; rests on C09's refinement of the delta-encoded Stack to full copies), the same for generated code via C01 (gen_equiv_interp, gen_no_exc) and for the optimized modes via C02.optimizer_sound (under OptS.WF, evaluated per grammar). All four modes are compared with the executable L0 and with their models on stack feature groups with nested catch points, stack templates, stack read-out grammars and stack-history grammars (every balanced push/drop/commit/abort history up to length 8/9 as a grammar whose accepted input is the stack).",
             "Lean 4 refinement proof (Stack via C09) + optimizer soundness (C02) + " + T_MODEL),
     "C06": ("core", "proof",
-            'Theorems interp_tree_wf / gen_tree_wf (every rule table incl. optimizer-made nodes and the fused SKIP rule, every start rule, input and start position k <= len(input), fuel): every successful parse of the interpreter model L1 and of the generated-code model LG returns a GoodTree - k <= start <= end <= len(input) for every pair at every depth, children in input order, pairwise non-overlapping and inside the parent (WFForest, wf_unfolded/wf_flat), names are non-silent rules of the table or EOI (spec_names, interp_names), tags are tags written in the table (interp_tags), a non-silent start rule yields exactly one root pair starting at k (interp_root_single); and for every list of pairs tokens() is balanced with non-decreasing positions, flatten() is its pre-order (tokens_balanced, tokens_sorted, flatten_is_preorder). text == input[start:end] holds by construction (a Pair stores only start/end). The optimized modes are the same models run on the optimized rule table (the run checks SkipTotal on it through the model: evidence hyp:og:skip). L1/LG are tied to the code by exact correspondence of trees; tokensL/flattenL are tied to Pairs.tokens()/flatten() by the T request on every successful parse of the run. For the two optimized modes the hypotheses are on the ORIGINAL grammar only (Props/AllModes.lean, Lemmas/OptSoundKeeps*.lean: opt_interp_tree_wf, opt_gen_tree_wf; opt_interp_names - every pair name is a non-silent rule of the original grammar or EOI, SKIP never names a pair; opt_interp_tags' / opt_gen_tags' - tags are tags written in the original grammar; opt_interp_root_single), using optimizer soundness (C02), optimized_skip_total and optimizer_keeps_tags / optimize_keeps_kind. Not a theorem (evaluated on every successful parse of the run through the public API, all four modes): dump()/dumps() render and agree (the compact rendering is read back and compared with the tree).',
+            'Theorems interp_tree_wf / gen_tree_wf (every rule table incl. optimizer-made nodes and the fused SKIP rule, every start rule, input and start position k <= len(input), fuel): every successful parse of the interpreter model L1 and of the generated-code model LG returns a GoodTree - k <= start <= end <= len(input) for every pair at every depth, children in input order, pairwise non-overlapping and inside the parent (WFForest, wf_unfolded/wf_flat), names are non-silent rules of the table or EOI (spec_names, interp_names), tags are tags written in the table (interp_tags), a non-silent start rule yields exactly one root pair starting at k (interp_root_single); and for every list of pairs tokens() is balanced with non-decreasing positions, flatten() is its pre-order (tokens_balanced, tokens_sorted, flatten_is_preorder). text == input[start:end] holds by construction (a Pair stores only start/end). The optimized modes are the same models run on the optimized rule table (the run checks SkipTotal on it through the model: evidence hyp:og:skip). L1/LG are tied to the code by exact correspondence of trees; tokensL/flattenL are tied to Pairs.tokens()/flatten() by the T request on every successful parse of the run. For the two optimized modes the hypotheses are on the ORIGINAL grammar only (Props/AllModes.lean, Lemmas/OptSoundKeeps*.lean: opt_interp_tree_wf, opt_gen_tree_wf; opt_interp_names - every pair name is a non-silent rule of the original grammar or EOI, SKIP never names a pair; opt_interp_tags\' / opt_gen_tags\' - tags are tags written in the original grammar; opt_interp_root_single), using optimizer soundness (C02), optimized_skip_total and optimizer_keeps_tags / optimize_keeps_kind. Not a theorem (evaluated on every successful parse of the run through the public API, all four modes): dump()/dumps() render and agree (the compact rendering is read back and compared with the tree).',
             "Lean 4 proof: forest invariant through L0 + refinement L1 ⊑ L0 (C03) + simulation LG ≈ L1 (C01); " + T_MODEL),
     "C07": ("core", "proof",
-            "Theorems parse_total / interp_terminates / parse_never_raises / modes_agree: for every rule table accepted by the decidable check WF.wellFormed (no left recursion incl. through implicit trivia - certified by a rank table -, no unbounded repetition over a nullable body, non-nullable WHITESPACE/COMMENT, no undefined reference), every defined start rule, every input and every start position inside it, there is a recursion budget from which on both Parser.parse (L1) and the generated parse() (LG) answer - Pairs or PestParsingError, never another exception (the models have explicit IndexError/UnboundLocalError/AssertionError/KeyError outcomes and they are proved unreachable) - and the two agree; the answer is a function of (grammar, rule, input, start position) (interp_deterministic; history independence of the real objects is C15). The run evaluates WF.wellFormed and the other hypotheses through the model on every grammar and on its optimized form (evidence hyp:*): the harness's own well-formedness filter is contained in it on all but a handful, which are counted. Checked on the implementation: all four modes on well-formed grammars - only PestParsingError escapes, the repeated call is equal, every parse ends within the time limit (a timeout is re-run with a 300 s limit before it is reported). For the two optimized modes: opt_parse_total' (Lemmas/OptSoundKeepsAll.lean) - from wellFormed, OptS.WF, GenShape and callable of the ORIGINAL grammar alone, both models answer on the optimized table from some fuel on (optimizer_preserves_termination, optimizer_keeps_genShape, optimizer_keeps_callable). Not a theorem: CPython's own recursion limit (the property excludes inputs beyond the budget).",
+            "Theorems parse_total / interp_terminates / parse_never_raises / modes_agree: for every rule table accepted by the decidable check WF.wellFormed (no left recursion incl. through implicit trivia - certified by a rank table -, no unbounded repetition over a nullable body, non-nullable WHITESPACE/COMMENT, no undefined reference), every defined start rule, every input and every start position inside it, there is a recursion budget from which on both Parser.parse (L1) and the generated parse() (LG) answer - Pairs or PestParsingError, never another exception (the models have explicit IndexError/UnboundLocalError/AssertionError/KeyError outcomes and they are proved unreachable) - and the two agree; the answer is a function of (grammar, rule, input, start position) (interp_deterministic; history independence of the real objects is C15). The run evaluates WF.wellFormed and the other hypotheses through the model on every grammar and on its optimized form (evidence hyp:*): the harness's own well-formedness filter is contained in it on all but a handful, which are counted. Checked on the implementation: all four modes on well-formed grammars - only PestParsingError escapes, the repeated call is equal, every parse ends within the time limit (a timeout is re-run with a 300 s limit before it is reported). For the two optimized modes: opt_parse_total\' (Lemmas/OptSoundKeepsAll.lean) - from wellFormed, OptS.WF, GenShape and callable of the ORIGINAL grammar alone, both models answer on the optimized table from some fuel on (optimizer_preserves_termination, optimizer_keeps_genShape, optimizer_keeps_callable). Not a theorem: CPython's own recursion limit (the property excludes inputs beyond the budget).",
             "Lean 4 termination proof (progress measure + nullability/rank certificates) + no-exception proofs through L1 ⊑ L0 and LG ≈ L1; " + T_MODEL),
     "C08": ("core", "proof",
             'Theorems (L0, fuel-independent, every grammar/input/state): group_id, seq_assoc/seq_flatten, choice_assoc/choice_flatten, dup_choice, never_seq, never_notpred (NEVER = any literal that fails at every position of the input; under total implicit trivia, and pointwise without), extract_silent (new silent rule, fresh and unreferenced), closed under any number of simultaneous rewrites at any depth of any rule bodies (Cong, GrammarRel, rewrites_preserve_parse) and under chaining (GEquiv.trans); lifted to the interpreter model and the generated-code model (grammar_rewrites_preserve_interp / _gen: same verdict, same end position, same trees up to tags). Counter-examples proved in the file show which hypotheses are needed (nullable WHITESPACE, a() ~ c). The equivalences are up to tags (L0 has none); for tags Props/Tags.lean proves what the rewrites rely on since the repair 48c96e3 - every abandoned alternative, optional, repetition item, predicate and trivia attempt gives the pending tags back (interp_tag_frame, choice_alternative_sees_same_tags and siblings, for L1 and LG); that original and rewritten grammar put each tag on the same pair is compared on the implementation in all modes, not proved. The same run is the metamorphic test on the implementation: rewrites at random sites of random grammars and of the bundled grammars (ASTs recovered from the real trees, printer round-trip checked), original vs rewritten in all four modes, and exact correspondence of every result with the models. Optimized modes rest on C02 for the step optimize(g) ~ g.',
